@@ -534,6 +534,7 @@ class IteratorQueue(IterableQueue[_ValueT]):
     self._max_enqueuer = max_enqueuer
     self._enqueue_start = 0
     self._enqueue_stop = 0
+    self._stopped = False
     self.ignore_error = ignore_error
 
   @classmethod
@@ -575,7 +576,9 @@ class IteratorQueue(IterableQueue[_ValueT]):
   @property
   def enqueue_done(self) -> bool:
     """Indicates whether there is ongoing enqueuer."""
-    if self._exception:
+    # A stop request is final: an enqueuer that only starts afterwards (e.g., a
+    # pending thread pool task) must not revive the queue.
+    if self._exception or self._stopped:
       return True
     # If max_enqueuer is not set, it means the no enqueuer has started yet.
     if not self._max_enqueuer:
@@ -757,6 +760,7 @@ class IteratorQueue(IterableQueue[_ValueT]):
     """
     exc = exc or StopIteration()
     with self._states_lock:
+      self._stopped = True
       self._enqueue_stop = self._enqueue_start = self._max_enqueuer
       if not is_stop_iteration(exc):
         self._exception = exc
